@@ -3,6 +3,7 @@ package main
 import (
 	"bufio"
 	"fmt"
+	"golang.org/x/net/bpf"
 	"os"
 	"strings"
 
@@ -70,6 +71,17 @@ func compilePolicy(le bool, archName string, p *seccomp.Policy) (res string) {
 		}
 		return instrTokens(insts)
 	}
+	if strings.HasPrefix(archName, "S>") {
+		// "S>B": the exported SyscallGroup.Assemble is called first on every group of the value, through pointers into
+		// the policy's slice (whatever it returns or panics with is ignored); then the policy is assembled for B
+		for i := range p.Syscalls {
+			func() {
+				defer func() { recover() }()
+				p.Syscalls[i].Assemble(p.DefaultAction)
+			}()
+		}
+		archName = archName[2:]
+	}
 	if strings.HasPrefix(archName, "@@>") {
 		// the value keeps whatever architecture the previous (failed) call left in it
 		insts, err := p.Assemble()
@@ -103,8 +115,12 @@ func compilePolicy(le bool, archName string, p *seccomp.Policy) (res string) {
 		}
 		return "ERR " + errClass(err)
 	}
+	lastInsts = insts
 	return instrTokens(insts)
 }
+
+// lastInsts is the program the last successful plain compilation returned (the caller keeps it)
+var lastInsts []bpf.Instruction
 
 func runBuilder(t *toks) (res string) {
 	defer func() {
@@ -179,7 +195,17 @@ func cmdCompile() {
 				p = prevPolicy
 			}
 			prevPolicy = p
-			fmt.Fprintf(w, "%s | %s\n", line, compilePolicy(le, an, p))
+			// a program that was returned earlier belongs to the caller: it reads the same after any later compilation
+			kept, keptText := lastInsts, ""
+			if kept != nil {
+				keptText = instrTokens(kept)
+			}
+			lastInsts = nil
+			res := compilePolicy(le, an, p)
+			if kept != nil && instrTokens(kept) != keptText {
+				res = "CLOBBERED the program returned by the previous compilation changed during this one"
+			}
+			fmt.Fprintf(w, "%s | %s\n", line, res)
 		default:
 			fmt.Fprintln(w, line)
 		}
